@@ -18,8 +18,9 @@
      st_out s      = every (flush id, shard, MetricMap) handed to the backends so far. *)
 From stdpp Require Import gmap gmultiset.
 From Coq Require Import QArith Qcanon.
-From GS Require Import Base.Bytes Base.LTS Model.Lexer Model.Series Model.MetricMap Model.Content Model.Pipeline.
-From GS Require Import Proofs.Pipeline Proofs.PipelineExplicit Proofs.PipelineReported.
+From GS Require Import Base.Bytes Base.LTS Model.Lexer Model.Series Model.MetricMap Model.Content Model.Pipeline
+  Model.PipelineBounded.
+From GS Require Import Proofs.Pipeline Proofs.PipelineExplicit Proofs.PipelineReported Proofs.PipelineBounded.
 Local Open Scope nat_scope.
 
 (* At every moment, whatever was parsed is exactly what has been flushed plus what the
@@ -129,3 +130,63 @@ Theorem C01_no_phantom :
     ∃ d, d ∈ st_input s ∧ dp_type d = ty ∧ dp_key d = k.
 Proof. exact no_phantom. Qed.
 Print Assumptions C01_no_phantom.
+
+(* ---------------------------------------------------------------------------------------- *)
+(* Every configuration.  Model/PipelineBounded.v is the pipeline with its configuration explicit:
+   bc_parsers parser goroutines that each hold at most one batch and send its splits in worker
+   order with blocking sends, queues of capacity bc_qcap (0 = rendezvous: send and merge are one
+   step, BRdv), the flusher handing the command to worker 0, 1, ... in turn (BCmd, each waits for
+   that worker's select) with fan-out execution (BExec), workers that are busy while executing.
+   The theorems above are about Model/Pipeline.v, which drops all of these restrictions; that
+   this loses no behaviour is the refinement below (no hypothesis on the configuration).
+     label_image l ls : BParse -> [Parse], BEnq -> [Enq j], BRdv -> [Enq j; Merge i],
+                        BMerge -> [Merge], BTick -> [Tick], BCmd -> [], BExec -> [FlushShard]
+     related bc b s   : same input, queues, aggregates, flush counter and out log; the splits the
+                        parsers hold are those in flight (up to order); the shards still to run
+                        are those not yet handed the command or still executing it. *)
+Theorem C01_bounded_refines :
+  ∀ (bc : bconfig) (bls : list blabel) (b : bstate),
+    run (bstep bc) (binit bc) bls = Some b →
+    ∃ (segs : list (list label)) (s : state),
+      Forall2 label_image bls segs
+      ∧ run (step (bc_cfg bc)) (init (bc_cfg bc)) (concat segs) = Some s
+      ∧ related bc b s.
+Proof. exact bounded_refines. Qed.
+Print Assumptions C01_bounded_refines.
+
+(* hence, for every number of parsers, every queue capacity and every shard count >= 1: *)
+Theorem C01_bounded_conservation :
+  ∀ (bc : bconfig) (bls : list blabel) (b : bstate),
+    cfg_shards (bc_cfg bc) ≠ 0 →
+    run (bstep bc) (binit bc) bls = Some b →
+    ∀ k : skey,
+      total dp_cnt (bs_input b) k
+      = total cnt ((λ x, x.2) <$> bs_out b) k
+        ⊕ total cnt (bs_aggr b) k
+        ⊕ total cnt (concat (bs_queue b)) k
+        ⊕ total cnt ((λ x, x.2) <$> concat (bs_pending b)) k.
+Proof. exact bounded_conservation. Qed.
+Print Assumptions C01_bounded_conservation.
+
+Theorem C01_bounded_exact_at_quiescence :
+  ∀ (bc : bconfig) (bls : list blabel) (b : bstate) (bls' : list blabel) (b' : bstate) (f : nat),
+    cfg_shards (bc_cfg bc) ≠ 0 →
+    run (bstep bc) (binit bc) bls = Some b →
+    (∀ l, l ∈ bs_pending b → l = []) ∧ (∀ q, q ∈ bs_queue b → q = []) →
+    run (bstep bc) b bls' = Some b' →
+    (∃ pre post, bls' = pre ++ BTick f :: post ∧ Forall is_bflush_label pre ∧ Forall is_bshard_label post) →
+    (∃ nx, bs_flush b' = Some (f, nx) ∧ cfg_shards (bc_cfg bc) ≤ nx ∧ ∀ x, x ∈ bs_busy b' → x = false) →
+    ∀ k : skey, total dp_cnt (bs_input b) k = total cnt ((λ x, x.2) <$> bs_out b') k.
+Proof. exact bounded_exact_at_quiescence. Qed.
+Print Assumptions C01_bounded_exact_at_quiescence.
+
+(* The blocking sends and the hand-over of the flush command cannot wedge each other: in every
+   reachable state of every configuration either nothing at all is going on (no split held, no
+   map queued, no worker executing, no flush under way) or the pipeline can take a step by
+   itself (a send, a rendezvous, a merge, a command hand-over or a command execution). *)
+Theorem C01_bounded_no_deadlock :
+  ∀ (bc : bconfig) (bls : list blabel) (b : bstate),
+    run (bstep bc) (binit bc) bls = Some b →
+    bidle bc b ∨ ∃ l b', is_internal l ∧ bstep bc b l = Some b'.
+Proof. exact bounded_no_deadlock. Qed.
+Print Assumptions C01_bounded_no_deadlock.
